@@ -6,6 +6,7 @@ package main
 import (
 	"fmt"
 	"github.com/goghcrow/yae/val"
+	"strings"
 	"time"
 
 	"github.com/goghcrow/yae/types"
@@ -121,8 +122,15 @@ func runC03(r *Run) {
 	// short-circuit forms with literal operands next to tracing and failing calls (peephole territory)
 	for _, l := range []string{`tr(1) > 0`, `trb(b)`, `m["zz"] > 0`, `boom(1) > 0`, `[trb(f)][0]`} {
 		for _, tpl := range []string{"%s && false", "%s && true", "%s || true", "%s || false", "false && %s", "true || %s", "if(%s, true, true)", "if(%s, false, false)", "if(%s, 1, 1)",
-			"[tr(1), if(%s, false, false), tr(3)]", "!(%s)", "!(%s) && false", "(%s) == true", "if(true, %s, false)", "not(%s) or true"} {
-			judgeBackends(r, evalCase{fmt.Sprintf(tpl, l), true}, vars)
+			"[tr(1), if(%s, false, false), tr(3)]", "!(%s)", "!(%s) && false", "(%s) == true", "if(true, %s, false)", "not(%s) or true",
+			"if(!!(%s), tr(1), tr(2))", "!!(%s) && tr(5) > 0", "!!(%s) || tr(5) > 0", "!!!(%s) ? tr(1) : tr(2)", "if(!(!(%s)), tr(1), tr(2))", "if(!(%s), tr(1), tr(2))", "!!!!(%s) && trb(b)",
+			"if(!!(%s), 1, boom(2))", "!(%s) || !!(%s)", "!(!(%s) && !(%s))"} {
+			n := strings.Count(tpl, "%s")
+			args := make([]interface{}, n)
+			for i := range args {
+				args[i] = l
+			}
+			judgeBackends(r, evalCase{fmt.Sprintf(tpl, args...), true}, vars)
 		}
 	}
 	{
